@@ -66,6 +66,7 @@ PLAN = {
         "rule": RULE_TRACE,
         "models": [MC("MC_P3_cmp.cfg", W_CMP), MC("MC_P4_cmp.cfg", W_CMP, "thorough")],
         "traces": [T("cmp", (120, 15000), (12, 14))],
+        "specgen": [{"gen": "compare", "variant": "std"}],
     },
     "C07": {
         "level": "model_checking",
@@ -154,5 +155,6 @@ PLAN = {
         "level": "model_checking",
         "rule": RULE_TRACE + "; fmt = 3 traits x {plain, +} x {no precision, p in 0,1,5,17,40} on values with negative-zero / subnormal low words and extreme exponents, output tokenised by the specification; serde = every well-formed and malformed shape (sequence / map in both field orders, missing, duplicate, unknown field, short sequence) x arbitrary (hi, lo) words incl. overlapping and non-finite ones, through serde's value deserializers and serde_json",
         "traces": [T("fmt", (150, 4000), (6, 14)), T("serde", (200, 5000), (8, 14), "serde")],
+        "specgen": [{"gen": "serde", "variant": "serde"}],
     },
 }
